@@ -1,6 +1,23 @@
 import DendroModel.Theory.C03Heap
-/-! C03 — property theorems (see the end of the file for the list and what is `_partial`).
-Helper lemmas live in `DendroModel.C03.Aux`; every `theorem` directly in `DendroModel.C03` is an obligation. -/
+/-! C03 — property theorems about the definitions `drv_c03` runs (`Model/C03.lean`, `Model/C03Heap.lean`).
+
+Obligations (every `theorem` directly in `namespace DendroModel.C03` of this file):
+* `step_wf`, `history_wf` — clause (a) at tree level, FULL: every operation of the alphabet (all 29 constructors of
+  `Op`: remove/add/insert children, parent setter, Edge.collapse, collapse_clade, reseed_at, reroot_at_node/edge,
+  to_outgroup_position, suppress_unifurcations, collapse_basal_bifurcation/deroot, polytomize_root,
+  collapse_unweighted_edges, resolve_polytomies, prune_subtree, filter_leaf_nodes, prune_leaves_without_taxa,
+  prune_taxa, retain_taxa, ladderize, reorder, randomly_rotate, shuffle_taxa, encode/update_bipartitions,
+  randomly_reorient) and every finite history keeps the tree free of shared nodes; an operation that raises leaves
+  the state as it was (by construction of `run`).
+* `suppress_keeps_leaf_taxa`, `suppress_leafTaxa` — clause (b) for unifurcation suppression: leaf taxa unchanged.
+* `ofTree_repr`, `removeChild_repr`, `removeChild_frame`, `removeChild_error_iff`, `removeChild_refines` — heap
+  layer: the pointer-level `remove_child` refines the tree-level operation, with frame property and error condition.
+
+NOT proved here (the definitions exist, are executable and are compared with the code on every run, but carry no
+theorem): heap refinement of `add_child`, `insert_child`, the `suppress_unifurcations` branch of `remove_child`, the
+`parent_node` setter, `Edge.collapse`, `Edge.invert` and the inversion chain of `reseed_at`; clause (b) for the
+operations other than `suppress_unifurcations`; clause (c) (masks are outside this model — decided by the oracle).
+Helper lemmas are in `DendroModel.C03.Aux` / `DendroModel.C03.HeapAux`. -/
 namespace DendroModel.C03.Aux
 open DendroModel DendroModel.C03
 
